@@ -1,5 +1,5 @@
 (* Dispatch.v — one entry point for the OCaml driver: property number -> functions. *)
-From Molt Require Import Model.Base Model.Tokenizer Check.C05 Check.C02 Check.C01 Check.C03 Check.C09 Check.C11 Check.C17 Check.C08 Check.C16 Check.C15 Check.C18 Check.C19 Check.C10 Check.C12 Check.C07 Check.C04 Check.C20.
+From Molt Require Import Model.Base Model.Tokenizer Check.C05 Check.C02 Check.C01 Check.C03 Check.C09 Check.C11 Check.C17 Check.C08 Check.C16 Check.C15 Check.C18 Check.C19 Check.C10 Check.C12 Check.C07 Check.C04 Check.C20 Check.C06 Check.C14.
 
 Record prop_fns := {
   pf_model_obs : term -> term;
@@ -23,12 +23,16 @@ Definition dispatch (p : N) : prop_fns :=
               pf_known := c01_known; pf_nontrivial := c01_nontrivial |}
   | 2%N => {| pf_model_obs := c02_model_obs; pf_spec_ok := c02_spec_ok;
               pf_known := c02_known; pf_nontrivial := c02_nontrivial |}
+  | 6%N => {| pf_model_obs := c06_model_obs; pf_spec_ok := c06_spec_ok;
+              pf_known := c06_known; pf_nontrivial := c06_nontrivial |}
   | 7%N => {| pf_model_obs := c07_model_obs; pf_spec_ok := c07_spec_ok;
               pf_known := c07_known; pf_nontrivial := c07_nontrivial |}
   | 8%N => {| pf_model_obs := c08_model_obs; pf_spec_ok := c08_spec_ok;
               pf_known := c08_known; pf_nontrivial := c08_nontrivial |}
   | 12%N => {| pf_model_obs := c12_model_obs; pf_spec_ok := c12_spec_ok;
                pf_known := c12_known; pf_nontrivial := c12_nontrivial |}
+  | 14%N => {| pf_model_obs := c14_model_obs; pf_spec_ok := c14_spec_ok;
+               pf_known := c14_known; pf_nontrivial := c14_nontrivial |}
   | 15%N => {| pf_model_obs := c15_model_obs; pf_spec_ok := c15_spec_ok;
                pf_known := c15_known; pf_nontrivial := c15_nontrivial |}
   | 16%N => {| pf_model_obs := c16_model_obs; pf_spec_ok := c16_spec_ok;
